@@ -71,9 +71,12 @@ func ValidateServers(servers []proxyv1alpha1.UpstreamClusterServer, fldPath *fie
 		scheme := getURLScheme(servers[i].Endpoint)
 		if len(scheme) == 0 {
 			allErrs = append(allErrs, field.Invalid(fldPath.Child("servers").Index(i), s, "endpoint must supply http(s) schema"))
-		} else if _, err := url.Parse(servers[i].Endpoint); err != nil {
+		} else if u, err := url.Parse(servers[i].Endpoint); err != nil {
 			// the endpoint is parsed when the cluster is synced and when requests are proxied
 			allErrs = append(allErrs, field.Invalid(fldPath.Child("servers").Index(i), s, "endpoint must be a valid url: "+err.Error()))
+		} else if len(u.Host) == 0 {
+			// e.g. "https://": the rest client of the endpoint can not be created without a host
+			allErrs = append(allErrs, field.Invalid(fldPath.Child("servers").Index(i), s, "endpoint must supply a host"))
 		} else {
 			schemes.Insert(scheme)
 		}
@@ -107,6 +110,10 @@ func ValidateClientConfig(scheme string, clientconfig *proxyv1alpha1.ClientConfi
 	if scheme == "https" {
 		if !clientconfig.Insecure && len(clientconfig.CAData) == 0 {
 			allErrs = append(allErrs, field.Required(fldPath.Child("caData"), "clientConfig must supply caData when using secure mode"))
+		}
+		if clientconfig.Insecure && len(clientconfig.CAData) > 0 {
+			// client-go refuses to create a transport with a root certificate and the insecure flag
+			allErrs = append(allErrs, field.Forbidden(fldPath.Child("caData"), "clientConfig must not supply caData when using insecure mode"))
 		}
 
 		var hasToken, hasKey, hasCert bool
